@@ -9,6 +9,8 @@ TOP_HEADS = ["a", "b", "interface"]
 CHILD_HEADS = ["c", "d"]
 SHAPES = ["{w}", "{w} *", "{w} ~"]
 FLAGS = [{}, {"cant_delete": True}, {"cant_delete": False}]
+# regexp placeholders used by overlapping (not nested) rules: a word both regexps accept, then a word only this one accepts
+REGEX_WORDS = {"*/1.*/": ("12", "13"), "*/.*2/": ("12", "32")}
 
 
 def leafs(heads, with_global=True):
@@ -61,6 +63,17 @@ def acls(tier):
     # both apply inside it (here: a %global catch-all reaches below 'c' inside 'a 2' only, never inside 'a 1')
     add("overlap-specific-nested-global", lambda: [ARule("a 2", [ARule("~", glob=True)]), ARule("a *", [ARule("c", [ARule("d")])])])
     add("overlap-specific-nested-global-2", lambda: [ARule("a 2", [ARule("d", glob=True)]), ARule("a *", [ARule("c *", [ARule("c")])])])
+    # the same child row under a specific and under a general block rule with different %cant_delete: inside the block both
+    # rules match ('a 2') the child is deletable (not every matching rule protects it); inside a block only one matches
+    # ('a 1') that rule's own flag decides - whatever was filtered before with the same compiled ACL
+    # two block rules that overlap without one containing the other (regexp placeholders): block 'a 12' fits both, 'a 13' only
+    # the first; the same child row under both with different flags
+    add("overlap-specific-crossing-child-cd-first", lambda: [ARule("a */1.*/", [ARule("c *", cant_delete=True)]), ARule("a */.*2/", [ARule("c *")])])
+    add("overlap-specific-crossing-child-cd-second", lambda: [ARule("a */.*2/", [ARule("c *")]), ARule("a */1.*/", [ARule("c *", cant_delete=True)])])
+    add("overlap-specific-crossing-child-cd-gen", lambda: [ARule("a */1.*/", [ARule("c *", cant_delete=True)]), ARule("a */.*2/", [ARule("c *", cant_delete=False), ARule("d")])])
+    add("overlap-specific-shared-child-cd-general", lambda: [ARule("a 2", [ARule("c *")]), ARule("a *", [ARule("c *", cant_delete=True)])])
+    add("overlap-specific-shared-child-cd-specific", lambda: [ARule("a 2", [ARule("c *", cant_delete=True)]), ARule("a *", [ARule("c *")])])
+    add("overlap-specific-shared-child-cd-both", lambda: [ARule("a 2", [ARule("c *", cant_delete=True), ARule("d")]), ARule("a *", [ARule("c *", cant_delete=True)])])
     # %prio: among the rules matching a row the one with the highest prio governs, whatever the shared-symbols metric says:
     # a local catch-all with children lifted above a specific %global rule (its children then apply), a %global rule lifted
     # above a specific local rule (the local rule's children then do not), inside a block and at top level
@@ -128,6 +141,9 @@ def row_alphabet(rules, negated=False, prefix="undo"):
             elif t == "~":
                 a.append("1")
                 b.append("2 3")
+            elif t in REGEX_WORDS:
+                a.append(REGEX_WORDS[t][0])
+                b.append(REGEX_WORDS[t][1])
             else:
                 a.append(t)
                 b.append(t)
@@ -136,7 +152,7 @@ def row_alphabet(rules, negated=False, prefix="undo"):
     def walk(rs):
         for r in rs:
             if r.pattern != "~":
-                for x in inst(r.pattern)[:1]:
+                for x in inst(r.pattern)[:2 if any(t in REGEX_WORDS for t in r.pattern.split()) else 1]:
                     if x not in rows:
                         rows.append(x)
             walk(r.children)
